@@ -194,6 +194,7 @@ pub fn rewrites<T: Fam>(doc: &str) -> Vec<Rewrite> {
                 if container != usize::MAX && sh.element_only[container] {
                     push("blank between elements", t.span.start, splice(s, t.span.start, 0, b" "));
                     push("newline+indent between elements", t.span.start, splice(s, t.span.start, 0, b"\n\t"));
+                    push("blank, comment, blank between elements", t.span.start, splice(s, t.span.start, 0, b" <!--c--> "));
                 }
             }
         }
@@ -239,7 +240,10 @@ pub fn rewrites<T: Fam>(doc: &str) -> Vec<Rewrite> {
             // from the raw attribute text without unescaping (see DESIGN.md, observations)
             let raw_val = std::str::from_utf8(&s[vs + 1..b - 1]).unwrap_or("");
             let looks_primitive = raw_val.split_ascii_whitespace().all(|w| w.parse::<f64>().is_ok() || w == "true" || w == "false") && !raw_val.trim().is_empty();
-            if !looks_primitive {
+            // namespace declarations are compared by the resolver on their raw bytes as well
+            let key = &s[a..eq];
+            let is_ns_decl = key.windows(5).any(|w| w == b"xmlns");
+            if !looks_primitive && !is_ns_decl {
                 char_refs(doc, vs + 1, b - 1, &mut push);
             }
             // R7: quote kind and blanks around `=`
@@ -258,6 +262,14 @@ pub fn rewrites<T: Fam>(doc: &str) -> Vec<Rewrite> {
                 piece.extend_from_slice(b" = ");
                 piece.extend_from_slice(&s[vs..b]);
                 push("blanks around =", a, splice(s, a, b - a, &piece));
+                let mut piece = s[a..eq].to_vec();
+                piece.extend_from_slice(b"\t=\r\n");
+                piece.extend_from_slice(&s[vs..b]);
+                push("tab / CRLF around =", a, splice(s, a, b - a, &piece));
+                // another blank character between attributes
+                if is_ws(s[a]) {
+                    push("newline between attributes", a, splice(s, a, 1, b"\n\t"));
+                }
             }
         }
         // R6: permutations of up to 3 attributes
@@ -309,7 +321,7 @@ pub fn rewrites<T: Fam>(doc: &str) -> Vec<Rewrite> {
     if T::IGNORES_UNKNOWN_CHILDREN && T::ELEMENT_ONLY && T::NAME != "MapHolder" {
         if let (Some(first), Some(last)) = (sh.toks.first(), sh.toks.last()) {
             if first.kind == Kind::Start && last.kind == Kind::End && sh.element_only[0] {
-                for unk in ["<zz/>", "<zz>q</zz>", "<zz><a>1</a><zz/></zz>", "<zz a=\"1\"/>"] {
+                for unk in ["<zz/>", "<zz>q</zz>", "<zz><a>1</a><zz/></zz>", "<zz a=\"1\"/>", "<zz xmlns:xsi=\"bogus\"><y/></zz>", "<zz xmlns:xsi=\"bogus\"><zz/>q</zz>", "<zz><y/>q</zz>"] {
                     push("unknown first child", first.span.end, splice(s, first.span.end, 0, unk.as_bytes()));
                     push("unknown last child", last.span.start, splice(s, last.span.start, 0, unk.as_bytes()));
                 }
@@ -370,6 +382,20 @@ fn sweep<T: Fam>(ctx: &Ctx, ln: u32, level: usize, pair_limit: usize) {
                 return;
             }
         }
+        let mut bases = vec![base.clone()];
+        for nd in v.nil_docs() {
+            // the xsi:nil presentation itself must give the value (documented), then all rewrites apply to it
+            acc.evaluations += 1;
+            match de::<T>(&nd) {
+                Ok(b) if b == *v => bases.push(nd),
+                other => acc.violation(
+                    (ln, i),
+                    format!("{} value {:?}: the xsi:nil presentation {:?} deserializes as {:?}", T::NAME, v, nd, other),
+                    json!({"type": T::NAME, "index": i, "level": level, "rewritten": nd, "rewrites": "xsi:nil presentation"}),
+                ),
+            }
+        }
+        for base in bases {
         let singles = rewrites::<T>(&base);
         let mut check = |acc: &mut Acc, names: String, doc: &str| {
             acc.evaluations += 1;
@@ -401,18 +427,19 @@ fn sweep<T: Fam>(ctx: &Ctx, ln: u32, level: usize, pair_limit: usize) {
                 }
             }
         }
-        acc.sample(seed, i ^ ((ln as u64) << 32), || json!({"type": T::NAME, "base": base, "single_rewrites": singles.len(), "example": singles.get(singles.len() / 2).map(|r| r.doc.clone())}));
+        acc.sample(seed, i ^ ((ln as u64) << 32) ^ base.len() as u64, || json!({"type": T::NAME, "base": base, "single_rewrites": singles.len(), "example": singles.get(singles.len() / 2).map(|r| r.doc.clone())}));
+        }
     });
 }
 
 pub fn run(ctx: &Ctx) {
     ctx.set_rule(
         "base documents: the plain serialization of every value of the C06 family (quick value set; thorough: the larger set) that \
-         round-trips. Rewrites, each applied at EVERY applicable site: comment / PI inserted at every position outside tags and outside \
+         round-trips, plus, for the type with optional elements, hand-written presentations of absent fields as xsi:nil elements. Rewrites, each applied at EVERY applicable site: comment / PI inserted at every position outside tags and outside \
          references (also inside text); blank / newline+tab between markup inside element-only content; text -> CDATA, -> two CDATA \
          sections at every split point, -> text + CDATA; every non-blank character of text and attribute values -> decimal / hex \
-         reference; <x/> <-> <x></x>; every permutation of up to 3 attributes; quote kind swapped where the value allows; blanks around \
-         `=`; XML declaration, DOCTYPE, leading and trailing comment; unknown attribute (first / last) on every tag and unknown child \
+         reference; <x/> <-> <x></x>; every permutation of up to 3 attributes; quote kind swapped where the value allows; blanks, tab and CRLF around \
+         `=`, newline+tab between attributes; XML declaration, DOCTYPE, leading and trailing comment; unknown attribute (first / last) on every tag and unknown child \
          (4 shapes) as first / last child of the root, for types that ignore unknown fields. All single rewrites, and all ordered pairs \
          (second rewrite computed on the rewritten document) for base documents up to the pair limit. Oracle: from_str(rewritten) == \
          value. non-trivial = every rewritten document; distinct by construction. states = (type, rewrite kind) pairs exercised",
